@@ -10,6 +10,7 @@ import (
 	refplay "verif/ref/play"
 	"verif/ref/smf"
 	"verif/ref/theory"
+	"verif/ref/timing"
 )
 
 // C08 — every file written is a well-formed Standard MIDI File.
@@ -190,5 +191,28 @@ func runC08(e *Env) {
 		e.R.NonTrivial("flags" + fmt.Sprint(i))
 	})
 	e.R.AddPart(ev.Part{Name: "flag-product", Enumerated: "real binary and in-process: --program 0..255 x N in {1,2}; 8 instrument names (empty, 127, 128, 300 bytes, non-ASCII, newline) x N in {1,3}; all track counts", Executions: int64(2 * len(fj)), Exhaustive: true})
+	// durations at and beyond the limit of a 4-byte delta (2^28 ticks = 279 620.27 beats)
+	var longs []playCase
+	for _, beats := range []uint64{279620, 279621, 300000, 5000000} {
+		v := []timing.Frac{{Num: beats, Den: 1}}
+		longs = append(longs,
+			playCase{Path: "lib", Insts: []refplay.Inst{shapes[0], {Values: v}, shapes[0]}},
+			playCase{Path: "lib", Insts: []refplay.Inst{{Chord: shapes[0].Chord, Values: v}}},
+			playCase{Path: "lib", Insts: []refplay.Inst{shapes[0], {Values: v}}, Cfg: writeCfg{Tracks: 2}},
+		)
+	}
+	for i := range longs {
+		c := longs[i]
+		res := runWrite(c.Path, refplay.YAML(c.Insts), c.Cfg)
+		e.R.Eval(1)
+		if res.Err != "" {
+			continue // refusing an over-long duration is fine
+		}
+		if _, err := smf.Parse(res.Bytes); err != nil {
+			c.fill()
+			e.R.Fail(ev.Fail{Class: "C08/malformed/delta-of-2^28-ticks-or-more", Msg: fmt.Sprintf("%s: accepted, but the file is malformed: %v", c02Durations(&c), err), Kind: "play", Case: &c})
+		}
+	}
+	e.R.AddPart(ev.Part{Name: "over-long-durations", Enumerated: "a rest or a chord of 279 620, 279 621, 300 000 and 5 000 000 beats (the delta between two events reaches 2^28 ticks at 279 620.27 beats): refused or well-formed", Executions: int64(len(longs)), Exhaustive: true})
 	e.R.Sample(map[string]any{"document": "[triad][rest+text][six-note chord]", "flags": "--track 2 --program 200", "oracle": "either refused, or a format-1 file with 2 chunks, data bytes < 128, one end-of-track per track"})
 }
